@@ -1071,8 +1071,12 @@ def sequence_features(muts, batched=True, spec=None):
         'changefield_then_type_change': False,
         'rename_to_baseline_name': False,
         'null_roundtrip': False,
+        'column_name_chain': False,
+        'added_relation_then_target_renamed': False,
     }
     alias = {}
+    name_setters = {}            # field -> number of column-name deciders
+    added_relations = set()      # target model names of added relations
     notnull_fixed = set()
     changed_fields = set()
     batch_created = set()        # models created by a rename in this batch
@@ -1107,6 +1111,13 @@ def sequence_features(muts, batched=True, spec=None):
 
         if kind == 'SQLMutation':
             batch_created = set()
+
+        if kind == 'SQLMutation':
+            name_setters = {}
+            added_relations = set()
+
+        if kind == 'RenameModel' and desc[1] in added_relations and batched:
+            feats['added_relation_then_target_renamed'] = True
 
         if kind == 'RenameModel':
             if (batched and spec_models and desc[1] not in batch_created and
@@ -1150,12 +1161,21 @@ def sequence_features(muts, batched=True, spec=None):
                 feats['noop_field_in_changemeta'] = True
         elif kind == 'AddField':
             added[key] = True
+            changed_fields.add(key)
+            related = (desc[4] or {}).get('related_model')
+
+            if related:
+                added_relations.add(related.split('.')[-1])
 
             if key in deleted and batched:
                 feats['readded'].append(desc[2])
         elif kind == 'RenameField':
             new_key = (model, desc[3])
             renamed_to.add(new_key)
+            name_setters[new_key] = name_setters.pop(key, 0) + 1
+
+            if name_setters[new_key] >= 2 and batched:
+                feats['column_name_chain'] = True
 
             if key in changed_fields:
                 changed_fields.add(new_key)
@@ -1206,6 +1226,12 @@ def sequence_features(muts, batched=True, spec=None):
             elif kwargs.get('null') is True and key in notnull_fixed \
                     and batched:
                 feats['null_roundtrip'] = True
+
+            if 'db_column' in kwargs:
+                name_setters[key] = name_setters.get(key, 0) + 1
+
+                if name_setters[key] >= 2 and batched:
+                    feats['column_name_chain'] = True
 
             if 'db_column' in kwargs:
                 column_fields.add(key)
@@ -1301,6 +1327,11 @@ def classify_by_scenario(atom, ctx):
         kind in ('index-extra', 'index-missing') and
         table in ctx.get('renamed_tables', [])):
         return 'rename-model-not-tracked-in-database-state'
+
+    if feats.get('column_name_chain') and kind in (
+            'column-missing', 'column-extra', 'index-missing',
+            'index-extra', 'foreign-key-missing', 'foreign-key-extra'):
+        return 'optimizer-collapses-column-name-chain'
 
     if (feats.get('changefield_then_type_change') and
         kind in ('index-extra', 'index-missing', 'column-differs')):
@@ -4164,7 +4195,7 @@ def _feat_pred(name, error_class=None, message_re=None):
                                   spec=scenario.get('spec'))
         value = feats.get(name)
 
-        if name == 'readded':
+        if name == 'readded' and message_re:
             m = re.search(r'no column named (\w+)',
                           error.get('message') or '')
             return bool(m and m.group(1) in value)
@@ -4378,6 +4409,31 @@ def initial_param_order_mismatch(spec, muts, batched=True):
             if changed:
                 break
 
+    # RenameModel(x -> y) ... RenameModel(y -> x) collapses to a no-op
+    # rename; mutations in between naming y really act on x.
+    for index, desc in enumerate(muts):
+        if desc[0] != 'RenameModel':
+            continue
+
+        for later_index in range(index + 1, len(muts)):
+            later = muts[later_index]
+
+            if later[0] == 'SQLMutation':
+                break
+
+            if (later[0] == 'RenameModel' and later[1] == desc[2] and
+                later[2] == desc[1]):
+                for k in range(index + 1, later_index):
+                    if muts[k][0] != 'SQLMutation' and \
+                       muts[k][1] == desc[2]:
+                        muts[k] = [muts[k][0], desc[1]] + muts[k][2:]
+
+                muts[later_index] = ['SQLMutation', '(folded)', [], 'sim']
+                muts[index] = ['SQLMutation', '(folded)', [], 'sim']
+                break
+
+    muts = [desc for desc in muts if desc[1] != '(folded)']
+
     # ... and last: within each batch (SQLMutations separate batches) the
     # mutations are regrouped by sorted(model name), keeping their order.
     regrouped = []
@@ -4451,12 +4507,13 @@ def initial_param_order_mismatch(spec, muts, batched=True):
         fields = sig_order.setdefault(
             model, list(state.models[model]['fields']))
 
-        folded = (kind == 'RenameField' and any(
+        folded = (kind in ('RenameField', 'ChangeField') and any(
             item[0] == 'add' and item[1] == desc[2]
             for item in runs.get(model, [])))
 
         if (kind == 'RenameField' and not folded) or (
-                kind == 'ChangeField' and 'field_type' in desc[3]):
+                kind == 'ChangeField' and 'field_type' in desc[3] and
+                not folded):
             # not mergeable: the rebuild collected so far ends here (a
             # RenameField of a field added in the same batch is folded
             # into the AddField by the optimiser instead)
@@ -4878,3 +4935,149 @@ KNOWN_C03.extend([
         'pred': _readded_pred(False),
     },
 ])
+
+
+def _seq_feat_pred(name):
+    return lambda sc, ob: bool(sequence_features(
+        sc['muts'], spec=sc['spec'])[name])
+
+
+KNOWN_C03.extend([
+    {
+        'id': 'optimizer-collapses-column-name-chain',
+        'clause': ['batched-same-signature', 'evolver-same-signature',
+                   'batched-same-rows', 'evolver-same-rows'],
+        'match': 'one field gets its column name decided >= 2 times in one '
+                 'batch: RenameField(.., db_column=c) then RenameField '
+                 '(which alone resets the column to the new field name), or '
+                 'RenameField followed by ChangeField(db_column=...)',
+        'what': 'the rename chain is collapsed into the FIRST RenameField '
+                '/ AddField by rewriting new_field_name only (db_column is '
+                'copied only from the last rename when set), and '
+                'ChangeFields are renamed rather than re-evaluated, so the '
+                'final db_column is the stale one of an earlier step',
+        'pred': _seq_feat_pred('column_name_chain'),
+    },
+    {
+        'id': 'optimizer-collapses-column-name-chain',
+        'clause': _SCHEMA,
+        'match': 'same input class: the column / its index carries the '
+                 'stale name',
+        'what': 'see above',
+        'pred': _causes_pred('optimizer-collapses-column-name-chain'),
+    },
+    {
+        'id': 'optimizer-retargets-added-relation-before-rename',
+        'clause': _ACCEPTED,
+        'match': 'AddField(m, f, ForeignKey/ManyToManyField, '
+                 'related_model=app.X) followed in the same batch by '
+                 'RenameModel(X -> Y) where m sorts before X',
+        'what': 'the second pass rewrites related_model of the AddField to '
+                'the NEW model name, but the regrouping by model name runs '
+                'the AddField before the RenameModel, when only X exists '
+                '(MissingSignatureError for app.Y)',
+        'pred': _c03_error_pred('added_relation_then_target_renamed',
+                                'MissingSignatureError'),
+    },
+    {
+        'id': 'optimizer-confuses-reused-field-names',
+        'clause': _ACCEPTED,
+        'match': 'see the signature entry of the same id; here the run is '
+                 'rejected (AttributeError on a missing field signature, '
+                 '"A field with this name already exists", duplicate '
+                 'column name)',
+        'what': 'see the signature entry of the same id',
+        'pred': _c03_error_pred('readded'),
+    },
+    {
+        'id': 'optimizer-merges-changefield-across-type-change',
+        'clause': _ACCEPTED + _ROWS,
+        'match': 'see the signature entry of the same id (attributes set '
+                 'before a type change survive it when batched, e.g. '
+                 'null=False without the rows having been fixed)',
+        'what': 'see the signature entry of the same id',
+        'pred': _seq_feat_pred('changefield_then_type_change'),
+    },
+])
+
+
+# ---------------------------------------------------------------------------
+# Concrete witnesses of the KNOWN entries (smallest failing scenario found
+# by the quick/thorough runs on the pinned tree; generated, do not edit).
+# Keys: '<suite>|<clause>|<known id>'.  '@NAME' stands for a module constant.
+# ---------------------------------------------------------------------------
+
+# --- BEGIN GENERATED WITNESSES ---
+_WITNESS_JSON = '{}'
+# --- END GENERATED WITNESSES ---
+
+
+def _attach_witnesses():
+    named = {'@SEQ_SPEC': SEQ_SPEC, '@SEQ_ROWS': SEQ_ROWS,
+             '@INIT_SPEC': INIT_SPEC, '@TYPES_SPEC': TYPES_SPEC,
+             '@C01_PLAIN': c01_base(False), '@C01_RICH': c01_base(True)}
+    data = json.loads(_WITNESS_JSON, object_pairs_hook=OrderedDict)
+
+    for suite, known_list in (('C01', KNOWN_C01), ('C02', KNOWN_C02),
+                              ('C03', KNOWN_C03), ('C18', KNOWN_C18)):
+        for entry in known_list:
+            clauses = entry['clause']
+
+            if isinstance(clauses, str):
+                clauses = [clauses]
+
+            entry.setdefault('inputs', None)
+
+            for clause in clauses:
+                inputs = data.get('%s|%s|%s' % (suite, clause, entry['id']))
+
+                if inputs is not None:
+                    inputs = OrderedDict(inputs)
+
+                    for field in ('spec', 'rows', 'target'):
+                        if isinstance(inputs.get(field), str):
+                            inputs[field] = copy.deepcopy(
+                                named[inputs[field]])
+
+                    entry['inputs'] = inputs
+                    entry['witness_clause'] = clause
+                    break
+
+
+_attach_witnesses()
+
+
+def known_findings():
+    """All KNOWN entries as JSON-able dicts (without the predicates)."""
+    result = []
+
+    for suite, known_list in (('C01', KNOWN_C01), ('C02', KNOWN_C02),
+                              ('C03', KNOWN_C03), ('C18', KNOWN_C18)):
+        for entry in known_list:
+            item = dict((k, v) for k, v in entry.items() if k != 'pred')
+            item['suite'] = suite
+            result.append(item)
+
+    return result
+
+
+SUITES = OrderedDict([
+    ('C01', (suite_C01, replay_C01)),
+    ('C02', (suite_C02, replay_C02)),
+    ('C03', (suite_C03, replay_C03)),
+    ('C18', (suite_C18, replay_C18)),
+])
+
+
+if __name__ == '__main__':
+    import argparse
+
+    parser = argparse.ArgumentParser(description=__doc__.split('\n')[0])
+    parser.add_argument('ids', nargs='*', default=list(SUITES))
+    parser.add_argument('--tier', default='quick')
+    parser.add_argument('--seed', type=int, default=0)
+    options = parser.parse_args()
+
+    for suite_id in options.ids:
+        outcome = SUITES[suite_id][0](options.tier, options.seed)
+        print(json.dumps(H.to_jsonable(outcome), indent=1, default=repr))
